@@ -193,6 +193,7 @@ class LThread:
         self.exc = None
         self.thread = None
         self.is_bg = False
+        self.in_close = False       # inside Connection.close(): its own HANDLE_CLOSE request is not a model action
 
 
 class VClock:
@@ -537,11 +538,14 @@ class SCond:
 
 
 class SChan:
-    """the connection's channel: requests go to the peer script, replies come from it"""
+    """the connection's channel: requests go to the peer script, replies come from it.  `eof`: the peer has closed
+    the stream (after the frames already sent): poll() reports readable and recv() raises EOFError, as a socket
+    does.  `closed`: closed locally by Connection._cleanup: every later poll/recv/send raises EOFError (ClosedFile)."""
     def __init__(self, sched, run):
         self.sched = sched
         self.run = run
         self.frames = []            # (frame id, bytes) the peer has sent and nobody has received
+        self.eof = False
         self.closed = False
 
     def poll(self, timeout):
@@ -549,10 +553,17 @@ class SChan:
         th = s.cur()
         if s.aborting:
             raise Abort()
+        if self.closed:
+            s.log(th, "p0", "eof")
+            raise EOFError("stream has been closed")
         timeout = Timeout(timeout)
-        if not self.frames and not timeout.expired():
-            s.block(th, "poll", lambda: bool(self.frames), timeout.tmax if timeout.finite else None)
-        if self.frames:
+        if not self.frames and not self.eof and not timeout.expired():
+            s.block(th, "poll", lambda: bool(self.frames) or self.eof or self.closed,
+                    timeout.tmax if timeout.finite else None)
+        if self.closed:
+            s.log(th, "p0", "eof")
+            raise EOFError("stream has been closed")
+        if self.frames or self.eof:
             return True
         s.log(th, "p0", "none")
         return False
@@ -562,6 +573,9 @@ class SChan:
         th = s.cur()
         if s.aborting:
             raise Abort()
+        if self.closed or (not self.frames and self.eof):
+            s.log(th, "p0", "eof")
+            raise EOFError("connection closed by peer")
         if not self.frames:
             raise HarnessError("recv() on an empty channel (poll was not consulted)")
         fid, data = self.frames.pop(0)
@@ -578,6 +592,14 @@ class SChan:
         msg, seq, args = brine.load(data)
         if msg != consts.MSG_REQUEST:
             raise HarnessError("unexpected outgoing message %r" % (msg,))
+        if th is not None and th.in_close:
+            if self.closed:
+                raise EOFError("stream has been closed")
+            return                  # close()'s own HANDLE_CLOSE request: the peer is gone, nobody answers
+        if self.closed:
+            s.log(th, "c2", "%d:closed" % seq)
+            th.phase = "c2closed"
+            raise EOFError("stream has been closed")
         self.run.outstanding.append(seq)
         self.run.sent_requests.append((th.tid, seq))
         s.log(th, "c2", seq)
@@ -600,7 +622,7 @@ class LoggingCounter:
     def __next__(self):
         v = next(self.real)
         th = self.sched.cur()
-        if th is not None and not self.sched.aborting:
+        if th is not None and not self.sched.aborting and not th.in_close:
             tmo = self.run.current_tmo.get(th.tid)
             self.run.issued.append((th.tid, v))
             self.sched.log_env("call:%d:%s:%d" % (th.tid, "n" if tmo is None else tmo, v), "call", (th.tid, v), th)
@@ -616,6 +638,8 @@ class LoggingDict(dict):
     def __setitem__(self, seq, cb):
         dict.__setitem__(self, seq, cb)
         th = self.sched.cur()
+        if th is not None and th.in_close:
+            return
         self.run.cell_seq[id(cb)] = seq
         self.run.cells[seq] = cb
         if th is not None and not self.sched.aborting:
@@ -624,8 +648,11 @@ class LoggingDict(dict):
     def pop(self, seq, *default):
         had = seq in self
         th = self.sched.cur()
-        if th is not None and not self.sched.aborting:
-            self.sched.log(th, "d1", "%s:%s" % (seq, "cb" if had else "nocb"))
+        if th is not None and not self.sched.aborting and not th.in_close:
+            if th.phase == "c2closed":      # _async_request's `except: self._request_callbacks.pop(seq, None); raise`
+                th.phase = None
+            else:
+                self.sched.log(th, "d1", "%s:%s" % (seq, "cb" if had else "nocb"))
         return dict.pop(self, seq, *default)
 
     def get(self, seq, default=None):
@@ -675,6 +702,7 @@ class Run:
         self.conn = None
         self.bgt = None
         self.answered = {}
+        self.eof_at = None
 
     # -- helpers used by the tracer
     def seq_of(self, cell):
@@ -755,10 +783,24 @@ class Run:
                 return real_serve(timeout, wait_for_lock)
             finally:
                 if th is not None and not s.aborting and th.phase == "n2":
-                    s.log(th, "d0", "none")
+                    s.log(th, "d0", "raise" if isinstance(sys.exc_info()[1], EOFError) else "none")
                     th.phase = None
 
         conn.serve = serve
+        real_close = conn.close
+
+        def close():
+            th = s.cur()
+            if th is None or s.aborting:
+                return real_close()
+            s.log(th, "x0", "again" if conn._closed else "first")
+            th.in_close = True
+            try:
+                return real_close()
+            finally:
+                th.in_close = False
+
+        conn.close = close
         self.conn = conn
         self.chan = chan
         return conn
@@ -780,6 +822,8 @@ class Run:
                 except Exception as ex:  # noqa
                     if type(ex).__name__ in ("AsyncResultTimeout", "TimeoutError"):
                         text = "timeout"
+                    elif isinstance(ex, EOFError):
+                        text = "eof"
                     elif isinstance(ex, ValueError) and ex.args and isinstance(ex.args[0], int):
                         text = "value:1:%d" % ex.args[0]
                     else:
@@ -819,6 +863,11 @@ class Run:
         if seq in self.case.get("dup", ()) and n == 0:
             self.outstanding.append(seq)         # a second, identical-seq reply will follow (outside the model)
 
+    def peer_eof(self):
+        self.chan.eof = True
+        self.eof_at = len(self.sched.trace)
+        self.sched.log_env("eof", "eof", None)
+
     # -- the driver loop
     def execute(self, chooser):
         """chooser(run, options, current) -> one of options; options are 'T<tid>', 'P<seq>', 'K' (advance the clock
@@ -848,7 +897,9 @@ class Run:
                     self.outcome = "horizon"
                     break
                 en = ["T%d" % t for t in s.order if s.enabled(s.threads[t])]
-                peer = [] if clients_done else ["P%d" % q for q in sorted(set(self.outstanding))]
+                peer = [] if (clients_done or self.chan.eof) else ["P%d" % q for q in sorted(set(self.outstanding))]
+                if self.case.get("eof") and not self.chan.eof and not clients_done:
+                    peer = peer + ["E"]
                 nd = s.next_deadline()
                 opts = en + peer
                 if not opts:
@@ -866,6 +917,8 @@ class Run:
                 self.choices.append((choice, opts, cur))
                 if choice == "K":
                     s.advance(nd)
+                elif choice == "E":
+                    self.peer_eof()
                 elif choice[0] == "P":
                     self.peer_answer(int(choice[1:]))
                 else:
